@@ -911,10 +911,9 @@ theorem resolve_model {a : Arr} (h : a.WF) (i : Int) :
   simp only [resolve, indexedMax_spec h]
 
 theorem litLoop_spec (es : List Elem) : ∀ (a : Arr) (index : Int), a.WF → 0 ≤ index →
-    ∃ a', litLoop a index es = .ok a' ∧ a'.WF ∧
-      (litOK a.abs index es = true → a'.abs = specLit a.abs index es) := by
+    ∃ a', litLoop a index es = .ok a' ∧ a'.WF ∧ a'.abs = specLit a.abs index es := by
   induction es with
-  | nil => intro a index h _; exact ⟨a, rfl, h, fun _ => rfl⟩
+  | nil => intro a index h _; exact ⟨a, rfl, h, rfl⟩
   | cons e es ih =>
     intro a index h hi
     cases e with
@@ -923,27 +922,21 @@ theorem litLoop_spec (es : List Elem) : ∀ (a : Arr) (index : Int), a.WF → 0 
       obtain ⟨a2, e2, w2, ab2⟩ := ih a1 (index + 1) w1 (by omega)
       refine ⟨a2, ?_, w2, ?_⟩
       · simp only [litLoop, e1, e2]
-      · intro ok
-        simp only [litOK] at ok
-        simp only [specLit]
+      · simp only [specLit]
         rw [← ab1]
-        exact ab2 (by rw [ab1]; exact ok)
+        exact ab2
     | «at» i v =>
-      simp only [litLoop, resolve_model h, litOK, specLit]
+      simp only [litLoop, resolve_model h, specLit]
       by_cases hj : resolve a.abs i < 0
-      · refine ⟨a, by rw [if_pos hj], h, ?_⟩
-        intro ok
-        simp only [Bool.and_eq_true, decide_eq_true_eq] at ok
-        omega
+      · rw [if_pos hj, if_pos hj]
+        exact ih a index h hi
       · rw [if_neg hj, if_neg hj]
         obtain ⟨a1, e1, w1, ab1⟩ := setElem_spec h (resolve a.abs i) v (by omega)
         obtain ⟨a2, e2, w2, ab2⟩ := ih a1 (resolve a.abs i + 1) w1 (by omega)
         refine ⟨a2, ?_, w2, ?_⟩
         · simp only [e1, e2]
-        · intro ok
-          simp only [Bool.and_eq_true, decide_eq_true_eq] at ok
-          rw [← ab1]
-          exact ab2 (by rw [ab1]; exact ok.2)
+        · rw [← ab1]
+          exact ab2
 
 theorem baseArr_spec {v : Var} (h : v.WF) : (baseArr v).WF ∧ (baseArr v).abs = v.abs := by
   unfold baseArr Var.abs
@@ -952,8 +945,8 @@ theorem baseArr_spec {v : Var} (h : v.WF) : (baseArr v).WF ∧ (baseArr v).abs =
   | str => exact ⟨Arr.WF.dense _, rfl⟩
   | indexed => exact ⟨h.arr, rfl⟩
 
-theorem wf_indexed {a : Arr} (w : a.WF) (s : Bool) (str : Str) : (Var.mk .indexed s str a).WF :=
-  ⟨w, fun c => by cases c⟩
+theorem wf_indexed {a : Arr} (w : a.WF) (str : Str) : (Var.mk .indexed true str a).WF :=
+  ⟨w, (fun c => by cases c), fun _ => rfl⟩
 
 theorem setWithIndex_spec (v : Var) {base : Arr} (h : v.WF) (hb : base.WF) (i : Int) (s : Str) :
     ∃ v', setWithIndex v base i s = .ok v' ∧ v'.WF ∧
@@ -964,7 +957,7 @@ theorem setWithIndex_spec (v : Var) {base : Arr} (h : v.WF) (hb : base.WF) (i : 
   · rw [if_neg hj, if_neg hj]
     obtain ⟨a1, e1, w1, ab1⟩ := setElem_spec hb (resolve base.abs i) s (by omega)
     rw [e1]
-    exact ⟨_, rfl, wf_indexed w1 _ _, ab1⟩
+    exact ⟨_, rfl, wf_indexed w1 _, ab1⟩
 
 theorem abs_nil_of_list_nil {a : Arr} (e : a.list = []) : a.abs = [] := by
   unfold Arr.abs
@@ -1025,28 +1018,7 @@ theorem appendZero_spec {a : Arr} (h : a.WF) (s : Str) :
     rw [ab1, abs_nil_of_list_nil el]
     simp [SMap.lookup, optStr]
 
-theorem Var.WF.zero_var : Var.zero.WF := ⟨Arr.WF.dense _, fun _ => rfl⟩
-
-theorem appElemBase_wf {a : Arr} (h : a.WF) (s : Str) :
-    ∀ a1, appElemBase a s = a1 → ∃ a', a1 = .ok a' ∧ a'.WF := by
-  unfold appElemBase
-  intro a1 e
-  split at e
-  · exact ⟨_, e.symm, Arr.WF.dense _⟩
-  · next el ei =>
-    have := (h.pre ei).len
-    rw [el] at this
-    simp at this
-  · next x xs i0 is el ei =>
-    split at e
-    · refine ⟨_, e.symm, ⟨?_⟩⟩
-      intro ix' e'
-      cases e'
-      have := h.shape _ ei
-      rw [el] at this
-      exact ⟨by simpa using this.1, this.2.1, this.2.2.1, this.2.2.2⟩
-    · exact ⟨_, e.symm, h⟩
-  · exact ⟨_, e.symm, h⟩
+theorem Var.WF.zero_var : Var.zero.WF := ⟨Arr.WF.dense _, fun _ => rfl, fun c => (c rfl).elim⟩
 
 /-- Every operation preserves the invariant and never panics; outside the recorded divergences
     (`opOK`) it is the bash operation on the abstract map. -/
@@ -1056,17 +1028,13 @@ theorem applyOp_spec (v : Var) (op : Op) (h : v.WF) :
   cases op with
   | assign es =>
     obtain ⟨a', e, w, ab⟩ := litLoop_spec es ⟨[], none⟩ 0 (Arr.WF.dense _) (Int.le_refl _)
-    refine ⟨⟨.indexed, true, v.str, a'⟩, by simp only [applyOp, e, liftArr], wf_indexed w _ _, ?_⟩
-    intro ok
-    exact ab ok
+    exact ⟨⟨.indexed, true, v.str, a'⟩, by simp only [applyOp, e, liftArr], wf_indexed w _, fun _ => ab⟩
   | append es =>
     obtain ⟨a', e, w, ab⟩ := litLoop_spec es (baseArr v) (indexedMax (baseArr v) + 1) bw
       (by have := indexedMax_ge bw; omega)
-    refine ⟨⟨.indexed, true, v.str, a'⟩, by simp only [applyOp, e, liftArr], wf_indexed w _ _, ?_⟩
-    intro ok
-    simp only [opOK] at ok
+    refine ⟨⟨.indexed, true, v.str, a'⟩, by simp only [applyOp, e, liftArr], wf_indexed w _, fun _ => ?_⟩
     rw [indexedMax_spec bw, bab] at ab
-    exact ab ok
+    exact ab
   | setElem i s =>
     obtain ⟨v', e, w, ab⟩ := setWithIndex_spec v h bw i s
     refine ⟨v', e, w, fun _ => ?_⟩
@@ -1080,34 +1048,34 @@ theorem applyOp_spec (v : Var) (op : Op) (h : v.WF) :
       rw [ab]
       simp [resolve, specOp, Var.abs, hk]
     | unknown =>
-      refine ⟨_, rfl, ⟨h.arr, fun c => by cases c⟩, fun _ => ?_⟩
+      refine ⟨_, rfl, ⟨h.arr, (fun c => by cases c), fun _ => rfl⟩, fun _ => ?_⟩
       simp [Var.abs, hk, specOp, SMap.insert]
     | str =>
-      refine ⟨_, rfl, ⟨h.arr, fun c => by cases c⟩, fun _ => ?_⟩
+      refine ⟨_, rfl, ⟨h.arr, (fun c => by cases c), fun _ => rfl⟩, fun _ => ?_⟩
       simp [Var.abs, hk, specOp, SMap.insert]
   | appStr s =>
     simp only [applyOp]
     cases hk : v.kind with
     | indexed =>
       obtain ⟨a', e, w, ab⟩ := appendZero_spec h.arr s
-      refine ⟨⟨.indexed, true, v.str, a'⟩, by simp only [e, liftArr], wf_indexed w _ _, fun _ => ?_⟩
+      refine ⟨⟨.indexed, true, v.str, a'⟩, by simp only [e, liftArr], wf_indexed w _, fun _ => ?_⟩
       simp only [Var.abs, hk, specOp]
       exact ab
     | unknown =>
-      refine ⟨_, rfl, ⟨h.arr, fun c => by cases c⟩, fun _ => ?_⟩
+      refine ⟨_, rfl, ⟨h.arr, (fun c => by cases c), fun _ => rfl⟩, fun _ => ?_⟩
       simp [Var.abs, hk, specOp, SMap.insert, SMap.lookup, optStr, h.zero hk]
     | str =>
-      refine ⟨_, rfl, ⟨h.arr, fun c => by cases c⟩, fun _ => ?_⟩
+      refine ⟨_, rfl, ⟨h.arr, (fun c => by cases c), fun _ => rfl⟩, fun _ => ?_⟩
       simp [Var.abs, hk, specOp, SMap.insert, SMap.lookup, optStr]
   | appElem i s =>
     simp only [applyOp]
     cases hk : v.kind with
     | indexed =>
       simp only
-      obtain ⟨a1, e1, w1⟩ := appElemBase_wf h.arr s _ rfl
+      obtain ⟨a1, e1, _, _⟩ := appendZero_spec h.arr s
       rw [e1]
       simp only
-      obtain ⟨v', e, w, _⟩ := setWithIndex_spec v h w1 i v.str
+      obtain ⟨v', e, w, _⟩ := setWithIndex_spec v h h.arr i v.str
       exact ⟨v', e, w, fun ok => by simp [opOK, hk] at ok⟩
     | unknown =>
       simp only
@@ -1132,7 +1100,9 @@ theorem applyOp_spec (v : Var) (op : Op) (h : v.WF) :
       · rw [if_neg hj]
         obtain ⟨a', e, w, ab⟩ := deleteElem_spec h.arr (resolve v.arr.abs i)
         rw [e]
-        refine ⟨_, rfl, wf_indexed w _ _, fun _ => ?_⟩
+        have hset : v.set = true := h.isset (by rw [hk]; intro c; cases c)
+        rw [hset]
+        refine ⟨_, rfl, wf_indexed w _, fun _ => ?_⟩
         simp [specOp, Var.abs, hk, hj, ab]
     | unknown =>
       refine ⟨v, rfl, h, fun _ => ?_⟩
@@ -1157,11 +1127,13 @@ theorem applyOp_spec (v : Var) (op : Op) (h : v.WF) :
     split
     · exact ⟨_, rfl, Var.WF.zero_var, fun _ => by simp [specOp, Var.abs, Var.zero]⟩
     · next hs =>
-      refine ⟨v, rfl, h, fun ok => ?_⟩
-      simp only [opOK, Bool.or_eq_true, beq_iff_eq] at ok
-      rcases ok with ok | ok
-      · exact absurd ok hs
-      · simp [specOp, Var.abs, ok]
+      refine ⟨v, rfl, h, fun _ => ?_⟩
+      have hk : v.kind = .unknown := by
+        cases hk : v.kind with
+        | unknown => rfl
+        | str => exact absurd (h.isset (by rw [hk]; intro c; cases c)) hs
+        | indexed => exact absurd (h.isset (by rw [hk]; intro c; cases c)) hs
+      simp [specOp, Var.abs, hk]
 
 theorem runOps_spec (ops : List Op) : ∀ (v : Var), v.WF →
     ∃ v', runOps v ops = .ok v' ∧ v'.WF ∧ (runOK v ops = true → v'.abs = specRun v.abs ops) := by
